@@ -17,6 +17,10 @@
 // the same input (same AST as gnofmt's output / same comment set / go/format not a fixpoint either); for AST and comment
 // changes the second upstream stage gnofmt delegates to, x/tools imports.Process(FormatOnly), is a reference as well.
 //
+// The package-level entry points FormatFile / FormatPackageFile (multi-file packages on disk, one shared Processor as in
+// `gno fmt`) are covered by packages.go: the same oracle per file, plus "the result must not depend on what the Processor
+// formatted or resolved before" (every operation sequence on a shared Processor == fresh Processors).
+//
 // Enumerated: every token sequence <= k over four small alphabets (statements, declarations, expressions with comment
 // and blank-line tokens; import sections x 8 file bodies against a mock resolver with colliding package names), kept
 // when it parses; every single-token deletion/duplication of corpus files that still parses (real FS resolver).
@@ -343,9 +347,12 @@ func lastElem(p string) string {
 	return p
 }
 
-func buildModel(f *ast.File, k knowledge, exports func(gnofmt.Package) map[string]bool) *importModel {
+func buildModel(f *ast.File, k knowledge, exports func(gnofmt.Package) map[string]bool, pkgTop map[string]bool) *importModel {
 	m := &importModel{used: map[string]map[string]bool{}, bindings: map[string][]string{}, mayAdd: map[string]bool{}}
 	top := map[string]bool{}
+	for n := range pkgTop {
+		top[n] = true
+	}
 	for _, d := range f.Decls {
 		switch d := d.(type) {
 		case *ast.GenDecl:
@@ -499,9 +506,17 @@ const (
 type env struct {
 	res     gnofmt.Resolver
 	exports func(gnofmt.Package) map[string]bool
+	// package-level entry points (packages.go): the file under test lives on disk next to the other files of its package
+	fmtFn   func(src []byte) ([]byte, error) // formats the package file with content src (fresh Processor)
+	pkgTop  map[string]bool                  // top-level names declared by the other files of the package
+	noModel bool                             // real corpus packages: the import model is not applied (see packages.go)
 }
 
 func runFmt(e *env, entry string, src []byte) (out []byte, err error, pan any) {
+	if e.fmtFn != nil {
+		pan = vk.Catch(func() { out, err = e.fmtFn(src) })
+		return
+	}
 	pan = vk.Catch(func() {
 		p := gnofmt.NewProcessor(e.res)
 		if entry == entryLayout {
@@ -574,6 +589,10 @@ func flushClasses() {
 	for _, k := range keys {
 		c := classes[k]
 		r.Violation(k, map[string]any{"class": k, "failing_inputs_in_class": c.n, "minimal_input": c.src, "minimal_label": c.label, "detail": c.detail})
+		if strings.TrimSpace(c.src) == "" { // package operations: the input is identified by its label
+			fmt.Printf("  class %s: %d failing inputs; minimal: %s\n", k, c.n, c.label)
+			continue
+		}
 		fmt.Printf("  class %s: %d failing inputs; minimal: %q\n", k, c.n, c.src)
 	}
 }
@@ -811,8 +830,10 @@ func checkOne(e *env, entry, label string, src []byte, fx *ast.File, t *tally) {
 			violation("layout-only-changed-imports", det(map[string]any{"out": clip(string(y)), "before": nx.imports, "after": ny.imports}))
 			return
 		}
+	} else if e.noModel {
+		t.add("imports_not_judged(real_package)")
 	} else {
-		m := buildModel(fx, e.res, e.exports)
+		m := buildModel(fx, e.res, e.exports, e.pkgTop)
 		if kind, msg := m.judge(uniq(nx.imports), uniq(ny.imports)); kind != "" {
 			violation("imports-"+kind, det(map[string]any{"out": clip(string(y)), "before": nx.imports, "after": ny.imports, "rule": msg}))
 			return
@@ -1146,6 +1167,22 @@ func main() {
 	} else {
 		depth = map[string]int{"stmt": 5, "decl": 5, "expr": 5, "imp": 5}
 	}
+	onlyPkg := os.Getenv("C54_ONLY") == "pkg" // debugging aid: only the package phase (packages.go)
+	if onlyPkg {
+		depth = map[string]int{"stmt": -1, "decl": -1, "expr": -1, "imp": -1}
+	}
+	// multi-file packages on disk: FormatFile / FormatPackageFile, shared vs fresh Processor (packages.go).  First: it is
+	// the cheapest part, a budget cap must not hit it.
+	fsr := gnofmt.NewFSResolver()
+	for _, root := range []string{"gnovm/stdlibs", "examples"} {
+		if err := fsr.LoadPackages(filepath.Join(repo, root), func(path string, err error) error { return nil }); err != nil {
+			r.HarnessError("LoadPackages %s: %v", root, err)
+		}
+	}
+	pk := packagePhase(repo, fsr)
+	if !pk.complete {
+		exhaustive = false
+	}
 	for n := 0; n <= 6; n++ {
 		for _, fam := range families {
 			if n > depth[fam.name] {
@@ -1175,12 +1212,6 @@ func main() {
 	enumFormatted := nFormatted.Load()
 
 	// corpus with the real resolver (stdlibs + examples, like `gno fmt`)
-	fsr := gnofmt.NewFSResolver()
-	for _, root := range []string{"gnovm/stdlibs", "examples"} {
-		if err := fsr.LoadPackages(filepath.Join(repo, root), func(path string, err error) error { return nil }); err != nil {
-			r.HarnessError("LoadPackages %s: %v", root, err)
-		}
-	}
 	var expCache atomicMap
 	fenv := &env{res: fsr, exports: func(p gnofmt.Package) map[string]bool { return expCache.get(p) }}
 	if n := os.Getenv("C54_DEBUG_NAME"); n != "" {
@@ -1199,7 +1230,7 @@ func main() {
 		if r.Quick() && (i%16 != 0 || len(cf.src) > 2<<10) {
 			continue
 		}
-		if r.Thorough() && len(cf.src) > 8<<10 {
+		if r.Thorough() && len(cf.src) > 8<<10 || onlyPkg {
 			continue
 		}
 		sel = append(sel, cf)
@@ -1230,8 +1261,9 @@ func main() {
 		"sources are parsed with go/parser (ParseComments|AllErrors), the parser gnofmt itself uses; only error-free parses are formatted",
 		"failures that go/format.Source reproduces on the same input (same AST as gnofmt's output, same comment set, or go/format not a fixpoint) are classified inherited_* in the outcome histogram, not violations",
 		"import model: unused-import pruning is allowed, names bound by two imports (invalid programs) are not judged, dot imports are excluded (not allowed in Gno)",
-		"bounded: sequences up to the stated length over the stated alphabets; single-token deletions/duplications of a deterministic subset of corpus files")
-	r.Finish("fmt(fmt(x))==fmt(x); AST(fmt(x)) ≅ AST(x) modulo positions, comment placement, import layout; comment texts kept; import rewriting obeys the model",
+		"bounded: sequences up to the stated length over the stated alphabets; single-token deletions/duplications of a deterministic subset of corpus files",
+		"package entry points: fixture packages and a deterministic subset of real examples packages; operation sequences on one Processor up to the stated length; absolute paths only; for real packages the import model is not applied")
+	r.Finish("fmt(fmt(x))==fmt(x); AST(fmt(x)) ≅ AST(x) modulo positions, comment placement, import layout; comment texts kept; import rewriting obeys the model; FormatFile/FormatPackageFile results independent of the Processor's history",
 		exhaustive, map[string]any{
 			"states":                        nParseable.Load(),
 			"transitions":                   r.Evals(),
@@ -1243,6 +1275,13 @@ func main() {
 			"enum_format_cases":             enumFormatted,
 			"corpus_mutants":                nmut.Load(),
 			"corpus_files":                  len(sel),
+			"package_fixture_ops":           pk.ops,
+			"package_op_sequences":          pk.sequences,
+			"package_sequence_depth":        pk.depth,
+			"package_ops_executed":          pk.executed,
+			"package_fixture_mutants":       pk.mutants,
+			"real_packages":                 pk.realPkgs,
+			"real_package_files":            pk.realFiles,
 			"plans":                         info,
 		})
 }
